@@ -335,6 +335,21 @@ func init() {
 				vals = append(vals, locdom.All(5, locdom.Opts{MaxParts: 3, Sites: true, Nest: true})...)
 				vals = append(vals, locdom.All(4, locdom.Opts{MaxParts: 2, Sites: true, Overlap: true, InnerFlags: true})...)
 			}
+			// part-count dimension: structured locations of 6..16 (thorough 30) parts, and with multi-digit coordinates
+			{
+				maxParts := 16
+				if r.Tier == "thorough" {
+					maxParts = 30
+				}
+				for parts := 6; parts <= maxParts; parts++ {
+					_, locs := manyPartLocs(parts)
+					vals = append(vals, locs...)
+				}
+				for _, off := range []int{9, 99, 999, 99999, 1000000} {
+					vals = append(vals, gts.Join(gts.Range(off, off+2), gts.Point(off+5), gts.Complemented{Location: gts.PartialRange(off+8, off+11, gts.Partial3)}),
+						gts.Order(gts.Between(off), gts.Ambiguous{Start: off + 2, End: off + 9}))
+				}
+			}
 			r.States.Add(int64(len(vals)))
 			// nested values first and sequentially: a printer that is only wrong (or only racy) for nesting
 			// then fails deterministically here before the parallel sweep can drown it in unrepeatable cases
